@@ -17,7 +17,7 @@ RULE = ("writers over (format in {XML, protobuf}) x (precision in 1..12) x 2 gen
         "distinct = (configuration pair, history); non-trivial = history with >=2 writes or >=2 writers")
 ANCHORS = ["XMLFileWriter.write_to_file", "XMLFileWriter.write_scenario_to_file", "ProtobufFileWriter.write_to_file",
            "ProtobufFileWriter.write_scenario_to_file", "FileWriter._handle_file_path", "float_to_str"]
-REQUIRED = ["event.construct", "event.write", "event.write-scenario", "event.skip", "skip.existing-empty", "skip.existing-bytes", "same-writer-twice",
+REQUIRED = ["history.with-validity-check.dangling-sign-references", "event.write-checked", "event.construct", "event.write", "event.write-scenario", "event.skip", "skip.existing-empty", "skip.existing-bytes", "same-writer-twice",
             "other-writer-constructed-in-between", "other-format-in-between", "identically-constructed-second-writer",
             "reference-read-back-ok", "target.file-of-previous-write.pb", "target.file-of-previous-write.xml",
             "target.existing-longer-file.pb", "target.existing-longer-file.xml", "skip.default-file-name.xml",
@@ -107,7 +107,7 @@ def run(ctx):
                 # one file name per writer and history: a writer meets the SAME name again (written before with ALWAYS,
                 # skipped before, ...); what it does there depends on the mode of the current call only
                 path = os.path.join(tmp, "c15_%d_%d_%s%s" % (os.getpid(), hist_n[0], name, ".xml" if fmt == "xml" else ".pb"))
-                if kind in ("write", "write-scenario"):
+                if kind in ("write", "write-scenario", "write-checked"):
                     # the target of an ALWAYS write: a new file name, the file the previous write of this history left
                     # behind (typically longer: write_to_file, then write_scenario_to_file to the same name), or an
                     # existing longer file with foreign content -- the produced content must not depend on it
@@ -126,8 +126,8 @@ def run(ctx):
                         ctx.feature("same-writer-twice")
                     if constructed_after_last_write_of.get(name):
                         ctx.feature("other-writer-constructed-in-between")
-                    method = "full" if kind == "write" else "scenario"
-                    c15_ref.write(w, method, path)
+                    method = "scenario" if kind == "write-scenario" else "full"
+                    c15_ref.write(w, "full-checked" if kind == "write-checked" else method, path)
                     writes_by[name] = writes_by.get(name, 0) + 1
                     with open(path, "rb") as f:
                         raw = f.read()
@@ -286,11 +286,25 @@ def run(ctx):
                           "two writers given equal tag sets %s (inserted in different orders) wrote different content" %
                           sorted(t.name for t in s1), {"tags": sorted(t.name for t in s1), "order_1": [t.name for t in s1],
                                                        "order_2": [t.name for t in s2]})
+    # the optional validity check of the XML writer, on scenarios whose lanelets name signs / lights outside the network
+    # (cut-outs without id clean-up) and on ordinary ones: checked and unchecked writes give the same content, before and after
+    scripted = [[("construct", "A"), ("construct", "B"), ("write", "B"), ("write-checked", "A"), ("write", "A"), ("write", "B")],
+                [("construct", "A"), ("write-checked", "A"), ("write-checked", "A"), ("construct", "B"), ("write", "B"),
+                 ("write-scenario", "A")],
+                [("construct", "B"), ("construct", "A"), ("write", "A"), ("write-checked", "B"), ("write", "A")]]
+    for i, rng in ctx.cases("validity-check", len(scripted) * 4):
+        ev = scripted[i % len(scripted)]
+        cfgs = [{"A": ("xml", 4), "B": ("pb", 4)}, {"A": ("xml", 6), "B": ("xml", 2)}][(i // len(scripted)) % 2]
+        sd_ = [1, 4, 2, 1][i // len(scripted) % 4]
+        ctx.fingerprint(["checked", i])
+        ctx.feature("history.with-validity-check" + (".dangling-sign-references" if sd_ % 3 == 1 else ""))
+        run_history(cfgs, ev, seed=sd_, tag="checked")
     n = ctx.pick(60, 3000)
     for i, rng in ctx.cases("random", n):
         cfgs = {k: (rng.choice(["xml", "xml", "pb"]), rng.randint(1, 12)) for k in "ABC"}
         ev = [("construct", rng.choice("ABC"))]
         for _ in range(rng.randint(3, 11)):
-            ev.append((rng.choice(["construct", "write", "write", "write-scenario", "skip"]), rng.choice("ABC")))
+            ev.append((rng.choice(["construct", "write", "write", "write-scenario", "skip", "write-checked"]),
+                       rng.choice("ABC")))
         ctx.fingerprint(["rnd", sorted(cfgs.items()), ev])
         run_history(cfgs, ev, seed=1 + (i % 6), tag="rnd")
